@@ -209,3 +209,25 @@ package iavl
 //@   callsite TreeIterator).stepAscend [forward] i.ascending && i.valid && len(i.stack) > 0
 //@   callsite TreeIterator).stepDescend [backward] !i.ascending && i.valid && len(i.stack) > 0
 //@   modifies *
+
+// ---------------------------------------------------------------- tree.go: removal — which node replaces a removed one and how the least key travels up (same rules as v1)
+//@ func (*Tree).addDelete(tree, node)
+//@   summary
+//@ func (*Tree).returnNode(tree, node)
+//@   summary
+
+//@ func (*Tree).recursiveRemove(tree, node, key) (newSelf, newKey, newValue, removed, err)
+//@   props C19
+//@   nosafety
+//@   requires tree != nil && node != nil
+//@   ensures [leaf-hit] err == nil && old(node.subtreeHeight) == 0 && old(ord(key)) == old(ord(node.key)) ==> removed && newSelf == nil && newKey == nil
+//@   ensures [leaf-miss] err == nil && old(node.subtreeHeight) == 0 && old(ord(key)) != old(ord(node.key)) ==> !removed && newSelf == node && newKey == nil
+//@   ensures [untouched-when-absent] err == nil && !removed ==> newSelf == node && newKey == nil
+//@   callsite Tree).recursiveRemove@1 [descend-left] ord(key) < ord(node.key)
+//@   callsite Tree).recursiveRemove@2 [descend-right] ord(key) >= ord(node.key)
+//@   callsite Tree).balance@1 [rebalance-after-left-removal] arg1 == node && removed && newLeftNode != nil
+//@   callsite Tree).balance@2 [rebalance-after-right-removal] arg1 == node && removed && newRightNode != nil
+//@   callsite Node).calcHeightAndSize@2 [least-key-of-right-propagated] arg0 == node && (newKey == nil || node.key == newKey)
+//@   callsite Node).right@1 [left-vanished-right-replaces] removed && newLeftNode == nil && arg0 == node
+//@   callsite Node).left@2 [right-vanished-left-replaces] removed && newRightNode == nil && arg0 == node
+//@   modifies *
